@@ -191,6 +191,51 @@ def gen(tr, rng, mode, depth=0):
     raise ValueError("gen: unknown type " + k)
 
 
+def features(tr, v, h):
+    """input-distribution histogram: which boundary features the generated values contain"""
+    k = tr["k"]
+
+    def inc(name):
+        h[name] = h.get(name, 0) + 1
+    if k in INT_RANGE:
+        lo, hi = INT_RANGE[k]
+        inc(f"{k}:min" if v == lo else f"{k}:max" if v == hi else f"{k}:other")
+        if k == "UnsignedVarInt32":
+            inc("uvarint:%d-byte" % (1 + sum(v >= b for b in (128, 16384, 2097152, 268435456))))
+    elif k in ("String", "CompactString"):
+        if v is None:
+            inc("string:null")
+        elif v == "":
+            inc("string:empty")
+        else:
+            n = len(v.encode("utf-8"))
+            inc("string:non-ascii" if n != len(v) else "string:ascii")
+            if n >= 127:
+                inc("string:>=127 bytes")
+    elif k in ("Bytes", "CompactBytes"):
+        inc("bytes:null" if v is None else "bytes:empty" if v == "" else "bytes:non-empty")
+    elif k == "TaggedFields":
+        inc("tagged:empty" if not v else "tagged:%d field(s)" % min(len(v), 3))
+        for t, b in v:
+            inc("tag:%d-byte" % (1 + sum(t >= x for x in (128, 16384, 2097152, 268435456))))
+    elif k in ("Array", "CompactArray"):
+        if v is None:
+            inc("array:null")
+        elif not v:
+            inc("array:empty")
+        else:
+            inc("array:>=127 elements" if len(v) >= 127 else "array:1-3 elements")
+            for x in v:
+                features(tr["of"], x, h)
+    elif k == "Schema":
+        for (_, f), x in zip(tr["fields"], v):
+            features(f, x, h)
+    elif k == "Boolean":
+        inc("bool:true" if v else "bool:false")
+    elif k == "Float64":
+        inc("float64:nan" if (v & 0x7FF0000000000000) == 0x7FF0000000000000 and (v & 0xFFFFFFFFFFFFF) else "float64:other")
+
+
 def is_trivial(tr, v):
     """the all-default value of the type"""
     return v == gen(tr, None, "zero")
@@ -365,6 +410,8 @@ def run(ck: Check):
     lap("translator + proofs")
     if not ok_p:
         ck.log(out_p[-1500:])
+        ck.extra["coq_failure"] = failing_lemma(out_p)
+        ck.log("failing lemma:", ck.extra["coq_failure"])
 
     # ---------------------------------------------------------------- describe the real classes
     desc = run_impl("c11_impl.py", {"describe": 1, "probes": 1}, env=IMPL_ENV)
@@ -432,7 +479,9 @@ def run(ck: Check):
 
     # ---- monitor: round trip on the real classes
     rt_fail = {}
+    hist = {}
     for (name, tr, v), r in zip(cases, impl[:ncodec]):
+        features(tr, v, hist)
         key = (name, vhash(v))
         ck.count(key=key, nontrivial=not is_trivial(tr, v),
                  sample={"struct": name, "value": v, "bytes": r.get("enc")} if name == "ProduceRequest_v3" and v != gen(tr, None, "zero") else None)
@@ -454,6 +503,7 @@ def run(ck: Check):
                      {"kind": "roundtrip", "struct": name, "value": v, "real": r,
                       "structs_failing": len(rt_fail)}, signature=f"roundtrip:{name}")
     ck.extra["roundtrip_failures"] = sum(len(x) for x in rt_fail.values())
+    ck.extra["input_distribution"] = dict(sorted(hist.items()))
 
     # ---- correspondence: the same cases through model/Wire.v inside Coq
     def case_term(name, tr, v, r):
@@ -720,6 +770,52 @@ def run(ck: Check):
     ck.extra["negotiation_cases"] = n_neg
     ck.extra["observations_unlisted_parameters_dropped"] = sorted(observations.values(), key=lambda d: (d["builder"], d["parameter"]))
 
+    # ---------------------------------------------------------------- (2c) Request.prepare on made-up class lists
+    syn = [([0], False), ([3], True), ([0, 1, 2], False), ([0, 1, 2, 5], False), ([1, 3, 5, 7, 9, 11, 13], True),
+           ([2, 1, 0], False), ([0, 2, 1], False), ([13], False), ([4, 9], True)]
+    for _ in range(ck.n(12, 60)):
+        k = rng.choice([1, 2, 3, 4, 6])
+        vs = rng.sample(range(14), k)
+        if rng.random() < 0.75:
+            vs.sort()
+        syn.append((vs, rng.random() < 0.3))
+    syn_real = run_impl("c11_impl.py", {"synthetic": [[v, a] for v, a in syn], "maxv": 13}, env=IMPL_ENV,
+                        timeout=300)["synthetic"]
+    syn_ok, syn_detail = model_ok, "" if model_ok else "model did not build"
+    if model_ok:
+        body = (
+            "Definition rng (lo hi : Z) : list Z := map (fun n => lo + Z.of_nat n) (seq 0 (Z.to_nat (hi - lo + 1))).\n"
+            "Definition advs : list (option (Z * Z)) := None :: flat_map (fun lo => map (fun hi => Some (lo, hi)) "
+            "(rng lo 13)) (rng 0 13).\n"
+            "Definition oc (o : outcome) : Z := match o with Chosen i _ => Z.of_nat i | ErrIncompatible => -1 "
+            "| ErrNotImplemented => -2 | ErrIndex => -3 end.\n"
+            "Eval vm_compute in (map (fun c => map (fun adv => oc (prepare (fst c) (snd c) adv)) advs) "
+            + coq_list(syn, lambda c: f"({coq_list(c[0])}, {coq_bool(c[1])})") + ").\n")
+        okc, outc = ck.coq_eval("c11_synthetic", IMPORTS, body)
+        if not okc:
+            syn_ok, syn_detail = False, outc[-300:]
+        else:
+            model_rows = parse_coq_value(parse_eval_outputs(outc)[0])
+            for (vs, allow), mr, rr in zip(syn, model_rows, syn_real):
+                ck.count(key=("syn", tuple(vs), allow), nontrivial=True, n=len(advs))
+                if mr != rr and syn_ok:
+                    i = next(j for j in range(len(advs)) if mr[j] != rr[j])
+                    syn_ok = False
+                    syn_detail = (f"_CLASSES versions {vs} allow_unknown={allow} advertised {advs[i]}: real {rr[i]} model {mr[i]} "
+                                  "(index of the class, -1 Incompatible, -2 NotImplemented)")
+                # monitor: in range, and highest when the list is ascending
+                for adv, o in zip(advs[1:], rr[1:]):
+                    inr = [v for v in vs if adv[0] <= v <= adv[1]]
+                    good = (o == -2) if not inr else (isinstance(o, int) and o >= 0 and adv[0] <= vs[o] <= adv[1]
+                                                    and (vs != sorted(vs) or vs[o] == max(inr)))
+                    if not good:
+                        ck.violation(f"Request.prepare with class versions {vs}, advertised {adv}: outcome {o}",
+                                     {"kind": "synthetic", "versions": vs, "advertised": adv, "outcome": o},
+                                     signature=f"prepare:{vs}:{adv}")
+                        break
+    ck.obligation("correspondence:prepare-model-vs-real-on-synthetic-class-lists", syn_ok, syn_detail)
+    lap(f"prepare on {len(syn)} synthetic class lists")
+
     # ---------------------------------------------------------------- (3) reply pairing monitor
     resp_by_kv = {}
     for s in structs.values():
@@ -761,6 +857,10 @@ def run(ck: Check):
     ck.extra["reply_cases"] = len(reply_cases)
     lap(f"replies: {len(reply_cases)} cases")
 
+    # ---------------------------------------------------------------- requests as built vs the Kafka table
+    golden_requests(ck, structs, builders, model_ok)
+    lap("request content (golden) cases")
+
     # ---------------------------------------------------------------- long values (real classes + model summary)
     long_ok, long_detail = long_values(ck, model_ok)
     ck.obligation("correspondence:long-strings-and-bytes", long_ok, long_detail)
@@ -795,6 +895,186 @@ def run(ck: Check):
                      {"kind": "varint-used", "structs": used_var, "real": probes["varint32"]}, signature="varint-used")
     ck.log(f"codec cases {ncodec} (+{len(domain_cases)} domain), model evaluated {n_model}, negotiation {n_neg}, "
            f"replies {len(reply_cases)}; deviations {deviating}; uncovered {uncovered}")
+
+
+
+# ------------------------------------------------------------------------------ expected request content
+def expected_request(b, v, P):
+    """Independent statement of what each builder must put on the wire for version v, in terms of
+    the constructor arguments used by harness/impl/c11_impl.py:make_builder (written from the Kafka
+    field semantics, in the nesting of the struct).  P = set of parameters given a non-default value."""
+    tid = "tx-1" if "PTransactionalId" in P else None
+    iso = 1 if "PIsolationLevel" in P else 0
+    pt = 4 if "PPatternType" in P else 3
+    inst = "inst-1" if "PGroupInstanceId" in P else None
+    ts = 1234567 if "PTimestampSearch" in P else -1
+    hx = lambda b_: b_.hex()  # noqa: E731
+    if b == "ApiVersionRequest" or b == "ListGroupsRequest":
+        return []
+    if b == "CreateTopicsRequest":
+        return [[["t", 1, 1, [], []]], 1000] + ([("PValidateOnly" in P)] if v >= 1 else [])
+    if b == "DeleteTopicsRequest":
+        return [["t"], 1000]
+    if b == "DescribeGroupsRequest":
+        return [["g"]] + ([("PAuthorizedOps" in P)] if v >= 3 else [])
+    if b == "SaslHandShakeRequest":
+        return ["PLAIN"]
+    if b == "DescribeAclsRequest":
+        return [2, "t"] + ([pt] if v >= 1 else []) + ["User:a", "*", 2, 3]
+    if b in ("CreateAclsRequest", "DeleteAclsRequest"):
+        return [[[2, "t"] + ([pt] if v >= 1 else []) + ["User:a", "*", 2, 3]]]
+    if b == "AlterConfigsRequest":
+        return [[[2, "t", [["k", "v"]]]], False]
+    if b == "DescribeConfigsRequest":
+        return [[[2, "t", None]]] + ([("PIncludeSynonyms" in P)] if v >= 1 else [])
+    if b == "SaslAuthenticateRequest":
+        return [hx(b"auth")]
+    if b == "CreatePartitionsRequest":
+        return [[["t", [3, [[1]]]]], 1000, False]
+    if b == "DeleteGroupsRequest":
+        return [["g"]]
+    if b == "DescribeClientQuotasRequest":
+        return [[["user", 0, "u"]], False]
+    if b == "AlterPartitionReassignmentsRequest":
+        return [1000, [["t", [[0, [1, 2], []]], []]], []]
+    if b == "ListPartitionReassignmentsRequest":
+        return [1000, [["t", [0], []]], []]
+    if b == "DeleteRecordsRequest":
+        if v < 2:
+            return [[["t", [[0, 5]]]], 1000]
+        return [[["t", [[0, 5, []]], []]], 1000, [[7, "78"]] if "PTags" in P else []]
+    if b == "FindCoordinatorRequest":
+        return ["g"] + ([1 if "PCoordinatorType" in P else 0] if v >= 1 else [])
+    if b == "MetadataRequest":
+        return [["t"]] + ([("PNoAutoTopicCreation" not in P)] if v >= 4 else [])
+    if b == "ProduceRequest":
+        return ([tid] if v >= 3 else []) + [1, 1000, [["t", [[0, hx(b"records")]]]]]
+    if b == "FetchRequest":
+        part = [0] + ([-1] if v >= 9 else []) + [7] + ([-1] if v >= 5 else []) + [100]
+        return ([-1, 100, 1] + ([1000] if v >= 3 else []) + ([iso] if v >= 4 else [])
+                + ([0, -1] if v >= 7 else []) + [[["t", [part]]]] + ([[]] if v >= 7 else [])
+                + (["rack-a" if "PRackId" in P else ""] if v >= 11 else []))
+    if b == "OffsetRequest":
+        return [-1] + ([iso] if v >= 2 else []) + [[["t", [[0, ts] + ([1] if v == 0 else [])]]]]
+    if b == "OffsetCommitRequest":
+        return ["g", 1, "m", -1, [["t", [[0, 5, "meta"]]]]]
+    if b == "OffsetFetchRequest":
+        return ["g", None if "PPartitionsOmitted" in P else [["t", [0]]]]
+    if b == "JoinGroupRequest":
+        return (["g", 1000] + ([2000] if v >= 1 else []) + ["m"] + ([inst] if v >= 5 else [])
+                + ["consumer", [["range", hx(b"md")]]])
+    if b == "SyncGroupRequest":
+        return ["g", 1, "m"] + ([inst] if v >= 3 else []) + [[["m", hx(b"as")]]]
+    if b == "HeartbeatRequest":
+        return ["g", 1, "m"]
+    if b == "LeaveGroupRequest":
+        return ["g", "m"]
+    if b == "InitProducerIdRequest":
+        return ["tx", 1000]
+    if b == "AddPartitionsToTxnRequest":
+        return ["tx", 1, 0, [["t", [0]]]]
+    if b == "AddOffsetsToTxnRequest":
+        return ["tx", 1, 0, "g"]
+    if b == "EndTxnRequest":
+        return ["tx", 1, 0, True]
+    if b == "TxnOffsetCommitRequest":
+        return ["tx", "g", 1, 0, [["t", [[0, 5, "meta"]]]]]
+    return None
+
+
+def golden_requests(ck, structs, builders, model_ok):
+    """every builder x every version of its _CLASSES x {no parameter, each applicable parameter}:
+    the header and body bytes of the request actually built must equal the Kafka-table encoding
+    (model/KafkaSpec.v layout, Wire.enc) of the content the constructor arguments call for."""
+    reqs, metas = [], []
+    for b, info in builders.items():
+        for cname, _ in info["classes"]:
+            v = name_version(cname)
+            ps = [p for p in PARAMS if (b, p) in MIN_VERSION]
+            for combo in [[]] + [[p] for p in ps]:
+                if any(p in LISTED and v < MIN_VERSION[(b, p)] for p in combo):
+                    continue            # rejected by the guard (checked by the negotiation cases)
+                exp = expected_request(b, v, set(combo))
+                if exp is None:
+                    ck.obligation("correspondence:request-content", False, f"no expected content for builder {b}")
+                    return
+                reqs.append({"builder": b, "ver": v, "present": combo})
+                metas.append((b, cname, v, combo, exp))
+    res = run_impl("c11_impl.py", {"golden": reqs}, env=IMPL_ENV, timeout=600)["golden"]
+    ok, detail = True, ""
+    terms = []
+    usable = []
+    for (b, cname, v, combo, exp), r in zip(metas, res):
+        ck.count(key=("golden", b, v, tuple(combo)), nontrivial=True,
+                 sample={"builder": b, "version": v, "present": combo, "header": r.get("hdr"), "body": r.get("body")}
+                 if b == "FetchRequest" and v == 11 and combo else None)
+        if "exc" in r or r.get("cls") != cname:
+            ok = False
+            detail = detail or f"{b} v{v} {combo}: built {r.get('cls', r.get('exc'))}, expected {cname}"
+            ck.violation(f"{b}: advertised exactly v{v}, outcome {r.get('cls', r.get('exc'))}",
+                         {"kind": "golden", "builder": b, "version": v, "present": combo, "real": r},
+                         signature=f"golden:{b}:{v}")
+            continue
+        tr = structs[cname]["tree"]
+        key = builders[b]["key"]
+        try:
+            body_v = coq_val(flat_tree(tr), flat_val(tr, exp))
+        except Exception as e:  # noqa: BLE001
+            ok = False
+            detail = detail or f"{cname}: expected content does not fit the struct: {e}"
+            continue
+        hdr_v = f"VTup [VInt {key}; VInt {v}; VInt 77; VStr (Some {coq_hex(b'c11'.hex())})" + \
+                ("; VTagged []]" if r["flex"] else "]")
+        terms.append(f"(spec_request {key} {v}, {body_v}, {coq_hex(r['body'])}, "
+                     f"spec_flexible {key} {v}, {hdr_v}, {coq_hex(r['hdr'])})")
+        usable.append((b, cname, v, combo, exp, r))
+    if model_ok and terms:
+        body = ("Definition g1 (c : option ty * val * list Z * option bool * val * list Z) := let '(s, v, real, fl, hv, hreal) := c in "
+                "(match s with Some st => let e := enc (TSchema (flat st)) v in (zs_eqb e real, e) | None => (true, []) end, "
+                "match fl with Some f => let e := enc (spec_request_header f) hv in (zs_eqb e hreal, e) | None => (true, []) end).\n"
+                "Definition cases := [\n" + ";\n".join(terms) + "].\n"
+                "Eval vm_compute in (map (fun c => let r := g1 c in (fst (fst r), fst (snd r))) cases).\n")
+        okc, outc = ck.coq_eval("c11_golden", IMPORTS, body, timeout=600)
+        if not okc:
+            ok, detail = False, "coq evaluation failed: " + outc[-400:]
+        else:
+            flags = parse_coq_value(parse_eval_outputs(outc)[0])
+            bad = [(m, f) for m, f in zip(usable, flags) if not (f[0] and f[1])]
+            reported = set()
+            for (b, cname, v, combo, exp, r), (body_ok, hdr_ok) in bad:
+                if name_version(cname) >= 0 and cname in KNOWN_DEVIATING_BUILT:
+                    continue
+                ok = False
+                what = (f"{cname} built by {b}: " + ("request body" if not body_ok else "request header")
+                        + " differs from the Kafka-table encoding of the expected content")
+                detail = detail or what
+                if (b, body_ok, hdr_ok) not in reported and len(reported) < 5:
+                    reported.add((b, body_ok, hdr_ok))
+                    ck.violation(what, {"kind": "golden", "builder": b, "struct": cname, "version": v, "present": combo,
+                                        "expected_content": exp, "real_header": r["hdr"], "real_body": r["body"]},
+                                 signature=f"golden:{b}:{v}")
+    ck.obligation("correspondence:request-content-vs-kafka-table", ok, detail)
+    ck.extra["golden_request_cases"] = len(reqs)
+
+
+KNOWN_DEVIATING_BUILT = set()   # no struct reachable through a builder deviates from the table
+
+
+def failing_lemma(out):
+    """name of the lemma around the coqc error position (the build fails in one of the C11 proof files)"""
+    m = re.findall(r'File "\./([^"]+)", line (\d+)', out)
+    if not m:
+        return "?"
+    path, line = m[-1][0], int(m[-1][1])
+    try:
+        lines = open(os.path.join("coq", path)).read().splitlines()[:line]
+    except OSError:
+        return f"{path}:{line}"
+    for ln in reversed(lines):
+        mm = re.match(r"\s*(Lemma|Theorem|Example|Corollary|Definition)\s+([A-Za-z0-9_']+)", ln)
+        if mm:
+            return f"{path}:{line} ({mm.group(2)})"
+    return f"{path}:{line}"
 
 
 def name_version(n):
@@ -880,6 +1160,21 @@ def replay(ck: Check, path):
         print(json.dumps({"case": c, "now": r}, indent=1)[:3000])
         if r.get("dec") != c["v"] or not r.get("rest_ok"):
             ck.violation(f"{c['req']}: reply still parsed into a different value", rp, signature=f"reply:{c['req']}")
+    elif kind == "golden":
+        r = run_impl("c11_impl.py", {"golden": [{"builder": rp["builder"], "ver": rp["version"],
+                                                  "present": rp["present"]}]}, env=IMPL_ENV)["golden"][0]
+        print(json.dumps({"recorded": rp, "now": r}, indent=1)[:3000])
+        if r.get("body") == rp.get("real_body") and r.get("hdr") == rp.get("real_header"):
+            ck.violation(f"{rp['builder']}: same request bytes as recorded", rp,
+                         signature=f"golden:{rp['builder']}:{rp['version']}")
+    elif kind == "synthetic":
+        r = run_impl("c11_impl.py", {"synthetic": [[rp["versions"], False]], "maxv": 13}, env=IMPL_ENV)["synthetic"][0]
+        advs = [None] + [(lo, hi) for lo in range(14) for hi in range(lo, 14)]
+        now = r[advs.index(tuple(rp["advertised"]))]
+        print(json.dumps({"recorded": rp, "now": now}))
+        if now == rp["outcome"]:
+            ck.violation("Request.prepare: same outcome as recorded", rp,
+                         signature=f"prepare:{rp['versions']}:{tuple(rp['advertised'])}")
     else:
         print(json.dumps(rp, indent=1)[:3000])
         print("this replay names a broken obligation / probe; run `bin/check C11` to re-evaluate it")
